@@ -123,6 +123,7 @@ pub fn vector(class: ValueClass, vseed: u32, dims: usize) -> Vec<f32> {
                 (0..dims).map(|i| 1000.0 * (1.0 + 0.1 * (i % 3) as f32) + ((m.unit() - 0.5) * 0.5) as f32).collect()
             }
         }
+        ValueClass::TinyScale => (0..dims).map(|_| uniform_component(&mut m) * 1e-9).collect(),
         ValueClass::NonFinite => {
             let all = m.below(5) == 0;
             (0..dims)
@@ -162,6 +163,7 @@ pub fn class_is_ordinary(class: ValueClass) -> bool {
             | ValueClass::Zeros
             | ValueClass::FarCluster
             | ValueClass::FarClusterMixed
+            | ValueClass::TinyScale
     )
 }
 
